@@ -47,6 +47,8 @@ def evaluate(sid, thorough=False, all_props=False):
     if rc:
         return {"id": sid, "error": "worktree: " + out}
     res = {"id": sid, "property": prop, "summary": meta.get("summary"), "needs": meta.get("needs")}
+    if meta.get("superseded"):
+        res["superseded"] = meta["superseded"]
     try:
         rc, out = sh(f"git -C {wt} apply --whitespace=nowarn {os.path.join(d, 'patch.diff')}")
         if rc:
@@ -121,6 +123,8 @@ def main():
         fd.write("| id | property | change | survives repo tests | caught by | quick tier, seeds detecting / tried | first violated clause |\n|---|---|---|---|---|---|---|\n")
         for r in rows:
             caught = f"./check {r['property']} {r.get('detected_tier')}" if r.get("detected") else "**missed**"
+            if r.get("superseded") and not r.get("detected"):
+                caught = "(no longer a violation: " + r["superseded"][:90] + ")"
             cl = ""
             for k, v in r.get("checks", {}).items():
                 if v["exit"] == 1 and v["clauses"]:
